@@ -317,7 +317,7 @@ def tt_irenumber(
         if isinstance(r, slice):
             start = r.start or 0
             stop = r.stop or shape[i]
-            newsubs[:, i] = np.arange(start, stop + 1)[newsubs[:, i]]
+            newsubs[:, i] = np.arange(start, stop + 1, r.step or 1)[newsubs[:, i]]
         elif isinstance(r, int):
             # This appears to be inserting new keys as rows to our subs here
             newsubs = np.insert(newsubs, obj=i, values=r, axis=1)
